@@ -61,17 +61,19 @@ func Decode(b []byte) (Payload, error) {
 
 // Script describes what every party does in a session.
 type Script struct {
-	Rounds    []uint8 // round numbers, in order (e.g. 1,2,3)
-	Bcast     bool    // each round has a broadcast-class message of every transmitting party
-	P2P       bool    // each round has one point-to-point message per peer
+	Rounds []uint8 // round numbers, in order (e.g. 1,2,3)
+	Bcast  bool    // each round has a broadcast-class message of every transmitting party
+	P2P    bool    // each round has one point-to-point message per peer
 	// StrayTo: party identifiers to which every transmitting backend additionally addresses one point-to-point message per round
 	// although they are not among the parties it was initialised with (nobody represents them in the session)
-	StrayTo []uint16
-	AllAtOnce bool    // transmit the whole script at start, then only listen (stepped mode)
-	Hold      bool    // never complete: after the script, wait until the context ends (keeps stepped runs deterministic)
+	StrayTo   []uint16
+	AllAtOnce bool // transmit the whole script at start, then only listen (stepped mode)
+	Hold      bool // never complete: after the script, wait until the context ends (keeps stepped runs deterministic)
 	// Transmit: party ids that transmit (nil = all). Parties that do not transmit only listen.
 	Transmit map[uint16]bool
 	Filler   func(round uint8, dst uint16) int
+	// SenderFiller: like Filler, but the length may also depend on the sending party
+	SenderFiller func(sender uint16, round uint8, dst uint16) int
 	// Versions >1: a Byzantine party emits that many versions of each broadcast (the interceptor routes them).
 	Versions map[uint16]int
 	// InitHook is called at the start of Init (the orchestrator is then between creating the protocol instance and registering
@@ -193,6 +195,9 @@ func (b *Backend) transmitRound(r uint8) {
 		return
 	}
 	fill := func(dst uint16) int {
+		if b.Script.SenderFiller != nil {
+			return b.Script.SenderFiller(b.Self, r, dst)
+		}
 		if b.Script.Filler != nil {
 			return b.Script.Filler(r, dst)
 		}
